@@ -13,6 +13,7 @@ Has == l > 1
 Ev == Trace[l - 1]
 IsI == Has /\ Ev.ev = "import"
 Cond_NoPanic == IsI => Ev.e # "panic"
+Cond_NoHang == IsI => Ev.e # "hang"    \* the importer returns (a tree with a fifo is *rejected*, not waited on)
 Cond_Harness_Walk == IsI => Ev.walkOK
 Cond_C18_Reject == IsI => ((Ev.e # "nil") <=> Ev.hasOther) /\ (Ev.e # "nil" => ~Ev.link)
 Cond_C18_Tree == (IsI /\ Ev.e = "nil" /\ ~Ev.big) => (Ev.link /\ SameTree(Ev["in"], Ev.out))
@@ -20,6 +21,7 @@ Cond_C18_Shard == (IsI /\ Ev.e = "nil") => ShardRule(Ev.out)
 Cond_C18_Big == (IsI /\ Ev.big) => (Ev.e = "nil" /\ Ev.bigSame)
 Chk(nm, c) == c \/ PrintT(<<"VIOL", nm, l - 1>>)
 Inv_NoPanic == Chk("Inv_NoPanic", Cond_NoPanic)
+Inv_NoHang == Chk("Inv_NoHang", Cond_NoHang)
 Inv_Harness_Walk == Chk("Inv_Harness_Walk", Cond_Harness_Walk)
 Inv_C18_Reject == Chk("Inv_C18_Reject", Cond_C18_Reject)
 Inv_C18_Tree == Chk("Inv_C18_Tree", Cond_C18_Tree)
